@@ -265,9 +265,9 @@ def register_missing(reg):
        s_2[5] grows by the number of pairs of one bucket, both missing                        = sum_i t_3[i] * (t_3[i] - 1) / 2
     and no other counter changes.  How t_3 is obtained (set difference, dict lookups) is outside the fragment (bounded)."""
     T = dict(t=Arr(Int), n=Int)
-    reg.spec("def TSUM(t, n):\n    return 0 if n <= 0 else TSUM(t, n - 1) + t[n - 1]", T, Int)
+    reg.spec("def MISSING_UPTO(t, n):\n    return 0 if n <= 0 else MISSING_UPTO(t, n - 1) + t[n - 1]", T, Int)
     reg.spec("def BOTH_MISSING_ORDERED(t, n, tot):\n    return 0 if n <= 0 else BOTH_MISSING_ORDERED(t, n - 1, tot) + "
-             "t[n - 1] * (tot - TSUM(t, n))", dict(t=Arr(Int), n=Int, tot=Int), Int)
+             "t[n - 1] * (tot - MISSING_UPTO(t, n))", dict(t=Arr(Int), n=Int, tot=Int), Int)
     reg.spec("def ONE_MISSING_TIED(R, t, n):\n    return 0 if n <= 0 else ONE_MISSING_TIED(R, t, n - 1) + "
              "(card(R[n - 1]) - t[n - 1]) * t[n - 1]", dict(R=SetList(), t=Arr(Int), n=Int), Int)
     # twice the number of pairs: keeps the specification free of division
@@ -285,7 +285,7 @@ def register_missing(reg):
         requires={
             "sizes": "len(t_3) == %s and len(s_1) == 6 and len(s_2) == 6" % N,
             "counts": "forall(lambda i: 0 <= t_3[i], 0, len(t_3))",
-            "total": "nb_missing_remaining == TSUM(t_3, len(t_3))",
+            "total": "nb_missing_remaining == MISSING_UPTO(t_3, len(t_3))",
         },
         modifies=["s_1", "s_2"],
         ensures={
@@ -297,7 +297,7 @@ def register_missing(reg):
         },
         loops={
             9: dict(snap={"tot0": "nb_missing_remaining"}, inv={
-                "remaining": "nb_missing_remaining == tot0 - TSUM(t_3, idx_consensus_i)",
+                "remaining": "nb_missing_remaining == tot0 - MISSING_UPTO(t_3, idx_consensus_i)",
                 "both_missing_ordered": "s_1[5] == old(s_1)[5] + BOTH_MISSING_ORDERED(t_3, idx_consensus_i, tot0)",
                 "one_missing_tied": "s_2[3] == old(s_2)[3] + ONE_MISSING_TIED(ranking_consensus, t_3, idx_consensus_i)",
                 "both_missing_tied": "2 * s_2[5] == 2 * old(s_2)[5] + BOTH_MISSING_TIED2(t_3, idx_consensus_i)",
